@@ -124,6 +124,20 @@ func phaseA(c *core.Ctx, kind string) {
 		c.R = core.NewR(seed)
 		defer func() { c.R = r }()
 		x := newDynRandom(c, kind, false)
+		if kind == "CircularBuffer" && c.R.Intn(4) == 0 {
+			// a ring with hundreds to thousands of slots, wrapped around its end
+			cfg := drawCfg(c.R, false)
+			cfg.cap = c.R.Range(512, 2100)
+			x = NewDyn(kind, IntDom(8), IntDom(4), cfg)
+			c.Begin(kind, "New", cfg.cap, "and wrap")
+			for i, n := 0, cfg.cap+c.R.Range(1, cfg.cap); i < n; i++ {
+				x.PutWide(c.R)
+			}
+			for i := c.R.Range(0, 300); i > 0; i-- {
+				x.RemoveOne(nil)
+			}
+			c.Count("phaseA:big-wrapped-rings", 1)
+		}
 		x.build(c, c.R.Range(0, 40))
 		if c.R.Chance(1, 10) && kind != "BinaryHeap" && kind != "PriorityQueue" {
 			x.PeakDrain(c, c.R.Range(1100, 2600))
@@ -769,6 +783,7 @@ func init() {
 			f := &floorCheck{m: m}
 			f.atLeast("phaseA:containers", 500)
 			f.atLeast("phaseA:big-containers", 60)
+			f.atLeast("phaseA:big-wrapped-rings", 10)
 			f.atLeast("phaseA:overlapping-call-pairs", 20000)
 			f.atLeast("phaseB:histories", 200)
 			f.atLeast("phaseB:porcupine-ok", 200)
